@@ -18,7 +18,8 @@ CLAIM = dict(
           'latitude / irradiance constants to the matching roles. Held–Suarez: kv ≥ 0, kv = 0 for σ ≤ σ_b, kt ≥ 0 (interval lemma on A + B·c, c ∈ [0, 1]), '
           'equilibrium temperature is a maximum with the floor, the nodal wind tendency is exactly −kv·(cos-weighted wind)/cos² for both components, vorticity / '
           'divergence are curl / div of that one field, the temperature tendency is −kt·((T_ref + T′) − T_eq), the surface-pressure tendency is identically zero. '
-          'Does not decide the global-mean = S/4 clause (quadrature) nor the spectral-space identity "tendency = −kv·vorticity" beyond its nodal form.'),
+          'Does not decide the global-mean = S/4 clause (quadrature) nor the spectral-space identity "tendency = −kv·vorticity" beyond its nodal form.'
+          " Later additions: C20.5 the solar geometry uses the Grid's offset-carrying longitudes (implementation longitudes + longitude_offset as a normal form); C20.6 normalised flux = flux/(mean+variation) by clamp-factor comparison; C20.7/C20.8 Held–Suarez rates (interval lemma), floor applied to the final temperature, drag on the wind from (vorticity, divergence)."),
     note=('Parameter assumptions (documented ranges): mean irradiance > variation ≥ 0; kf, ka ≥ 0, ks ≥ ka is NOT needed (interval lemma uses ka ≥ 0 and ks ≥ 0); '
           '0 < σ_b < 1, 0 < σ ≤ 1; positive scales. Lemma used: |cos a·cos b·cos c + sin a·sin b| ≤ 1 (Cauchy–Schwarz). Trusted: python ast, sympy canonicalisation.'),
     technique='abstract interpretation of the forcing expressions (SIGN with indicator lemma, PERIODIC phase-slope domain, unit-interval lemma) + normal-form comparison of linear coefficients',
